@@ -38,8 +38,8 @@ var chunkSizes = []uint64{100, 1, 2, 3}
 var scanLimits = []uint{0, 1, 2} // 0 = unlimited
 const longRange = 16
 
-// pre-confirmed chains are attached to every state reached by at most this many ops
-const pcDepth = 1
+// pre-confirmed chains are attached to every state reached by at most this many ops (0 in the quick tier)
+var pcDepth = 1
 
 type harness struct {
 	r                     *ev.Run
@@ -171,6 +171,7 @@ func TestCheck(t *testing.T) {
 		cfgs = keep
 	}
 	h := &harness{r: r, filters: allFilters(r.Thorough())}
+	pcDepth = ev.Pick(r, 0, 1)
 
 	want := [2]map[string]bool{{}, {}}
 	for _, c := range cfgs {
@@ -269,10 +270,10 @@ func TestCheck(t *testing.T) {
 	r.Set("rule", fmt.Sprintf("BFS over histories of ops %v from each base image (see searches), every history replayed on ONE long-lived real Blockchain (restarts are ops); "+
 		"state = KV image + reflective dump of running filter and LRU; in every state that is distinct for queries (image without the snapshot key + the two index objects): "+
 		"%d filters x all ranges over endpoints {0,8191,8192,head-2..head+1} x chunk %v x scan limit %v (on ranges > %d blocks a fully wildcard filter is only run pattern-less, unlimited, chunk 100 and chunk 1) "+
-		"in every state of depth <= 1 additionally 3 pre-confirmed chains (1-2 blocks) above the head x all filters x ranges reaching above the head incl. the pre_confirmed tag at either end; "+
+		"in every state of depth <= %d additionally 3 pre-confirmed chains (1-2 blocks) above the head x all filters x ranges reaching above the head incl. the pre_confirmed tag at either end; "+
 		"failed-commit sweep: every base x {store:X, store:Y, revert} x k-th commit fails -> same node answers the grid, retry succeeds; "+
 		"paged to the end (tokens round-tripped through their string form, must advance) and compared event by event with the naive scan of the reference receipts",
-		opList(alphabet), len(h.filters), chunkSizes, scanLimits, longRange))
+		opList(alphabet), len(h.filters), chunkSizes, scanLimits, longRange, pcDepth))
 	r.Assume = append(r.Assume,
 		"blocks are produced by verif/mc/chain (valid hashes/commitments); event layouts come from the 4-shape set of universe_test.go",
 		"a key pattern ending in a wildcard position is compared under juno's reading (event needs a key at every pattern position); counted in outcome 'trailing-wildcard-excludes-shorter-event'",
